@@ -939,9 +939,9 @@ func stableFieldObligations(w *World) []*workItem {
 						if !ok || su.Field(fa.Field).Name() != f {
 							continue
 						}
-						if _, fresh := fa.X.(*ssa.Alloc); fresh {
-							// initialisation of an object this function has just allocated (composite
-							// literal, local variable): construction, not a write to an existing object
+						if al, fresh := fa.X.(*ssa.Alloc); fresh && al.Comment == "complit" {
+							// field initialisers of a composite literal: construction of a new object,
+							// not a write to an existing one (stores to a named local still count)
 							continue
 						}
 						seen = true
